@@ -15,7 +15,7 @@ life of the channel.  The probes at the end make every history observe what is l
 claim, open, add and list.  Same step format as gen.Gen, judged by the same oracles.
 """
 import random
-from .gen import MOODS
+from .gen import MOODS, BAD_CLIENT_VERSIONS
 
 SIDES = ["s1", "s2", "s3", "s4"]
 SIDE_W = [5, 5, 3, 1]
@@ -46,7 +46,8 @@ class LConn(object):
 
 class LifeGen(object):
     def __init__(self, seed, napps=2, steps=60, restarts=True, use_time=True, names=None, body_prefix="L",
-                 p_illegal=0.03, list_cmd=True, closings=True, cross_app_mailboxes=False, probes=True, two_apps=False, **ignored):
+                 p_illegal=0.03, list_cmd=True, closings=True, cross_app_mailboxes=False, probes=True, two_apps=False, explicit_sweeps=False,
+                 bad_client_version=True, **ignored):
         self.r = random.Random(seed * 2654435761 % (1 << 32) + 17)
         self.seed = seed
         r = self.r
@@ -62,6 +63,8 @@ class LifeGen(object):
         self.closings = closings
         self.cross_app = cross_app_mailboxes
         self.probes = probes
+        self.explicit_sweeps = explicit_sweeps
+        self.bad_cv = bad_client_version
         self.conns = []
         self.told = {a: [] for a in self.apps}       # connections whose claim may have been answered
         self.used_sides = {a: [] for a in self.apps}
@@ -164,7 +167,7 @@ class LifeGen(object):
         elif what == "list":
             send(type="list")
 
-    def arrival(self, app=None, side=None, script=None):
+    def arrival(self, app=None, side=None, script=None, bad=False):
         r = self.r
         app = app or r.choice(self.apps)
         side = side or self.pick_side(app)
@@ -172,6 +175,13 @@ class LifeGen(object):
         c = LConn("c%d" % self.n, app, side)
         self.conns.append(c)
         self.emit("connect", c.name)
+        if bad or (self.bad_cv and script is None and r.random() < 0.015):
+            # a bind whose client_version is not a pair (outside the input space: nothing about its answer is
+            # judged, the connection is dropped right away; what it leaves behind in the server is judged)
+            self.emit("send", c.name, {"type": "bind", "appid": app, "side": side, "client_version": r.choice(BAD_CLIENT_VERSIONS)})
+            self.emit("drop", c.name)
+            c.alive = False
+            return c
         self.emit("send", c.name, {"type": "bind", "appid": app, "side": side})
         if script is None:
             script = self.wchoice([s for s, _ in SCRIPTS], [w for _, w in SCRIPTS])
@@ -229,21 +239,26 @@ class LifeGen(object):
             # passes: the server has rows for their app but has not built any object for them yet
             r = self.r
             app = r.choice(self.apps)
-            new = [self.arrival(app, None, r.choice([[], [], ["list"], ["releaseN"]])) for _ in range(r.choice([1, 2, 2, 3]))]
+            new = [self.arrival(app, None, r.choice([[], [], ["list"], ["releaseN"]]), bad=(self.bad_cv and r.random() < 0.15))
+                   for _ in range(r.choice([1, 2, 2, 3]))]
             for c in new:
-                if r.random() < 0.45:
+                if c.alive and r.random() < 0.45:
                     c.alive = False
                     self.emit(r.choice(["drop", "drop", "closing"]), c.name)
                     if self.h[-1][0] == "closing":
                         self._closing.append(c)
             self.flush_closing()
             self.emit("adv", r.choice([290, 310, 310, 480, 610]))
+            if self.explicit_sweeps:
+                self.emit("sweep")
 
     def time(self):
         if not self.use_time:
             return
         dt = self.wchoice(TIMES, TIME_W)
         self.emit("adv", dt + self.r.choice([0, 0, 0.125, -0.125]))
+        if self.explicit_sweeps and self.r.random() < 0.6:
+            self.emit("sweep")
 
     def gen(self):
         r = self.r
@@ -291,8 +306,17 @@ class LifeGen(object):
                     new.append(self.arrival(app, s, ["openM", "add"]))
             # connections of earlier rounds that are still there say something too
             for c in self.live():
-                if c.app == app and c not in new and c.opened is not None and not c.closed and r.random() < 0.7:
+                if c.app != app or c in new:
+                    continue
+                if c.opened is not None and not c.closed and r.random() < 0.7:
                     self.cmd(c, "add")
+                k = r.random()
+                if k < 0.2 and c.claimed is not None and not c.released:
+                    self.cmd(c, "release")
+                elif k < 0.35 and c.opened is not None and not c.closed:
+                    self.cmd(c, "close")
+                elif k < 0.42 and c.claimed is None:
+                    self.cmd(c, "claim")
             if self.list_cmd:
                 self.cmd(new[0], "list")
             if r.random() < 0.5:
